@@ -143,7 +143,7 @@ func runGoNode(rc *sk.RunCtx, focus string) {
 	tp := rc.Tape
 	if focus == "C29" {
 		bits := 2 + tp.Choose(5)
-		sq := &squeezeReader{inner: rand.Reader, mask: byte(1<<bits - 1)}
+		sq := &squeezeReader{inner: rand.Reader, mask: byte(1<<bits - 1), echo: tp.Chance(1, 2)}
 		saved := rand.Reader
 		rand.Reader = sq
 		defer func() { rand.Reader = saved }()
